@@ -27,6 +27,8 @@ void * __libc_realloc(void *, size_t);
 int __real_pthread_mutex_lock(pthread_mutex_t *);
 int __real_pthread_mutex_unlock(pthread_mutex_t *);
 int __real_pthread_mutex_trylock(pthread_mutex_t *);
+int __real_pthread_mutex_timedlock(pthread_mutex_t *, const struct timespec *);
+int __real_pthread_mutex_clocklock(pthread_mutex_t *, clockid_t, const struct timespec *);
 int __real_pthread_rwlock_rdlock(pthread_rwlock_t *);
 int __real_pthread_rwlock_wrlock(pthread_rwlock_t *);
 int __real_pthread_rwlock_tryrdlock(pthread_rwlock_t *);
@@ -394,6 +396,18 @@ int mutexLock(uintptr_t m, bool tryOnly, bool recursive = false)
     blockOn(m);
   }
 }
+// A lock call with a deadline (std::timed_mutex::try_lock_for / try_lock_until). There is no clock in the simulation: when
+// the mutex is held by another thread the seeded scheduler decides whether the deadline passes first (ETIMEDOUT, the
+// injected fault) or the caller waits for the mutex; an uncontended call simply acquires it.
+int mutexTimedLock(uintptr_t m, bool recursive)
+{
+  {
+    SyncObj & s = syncObj(m);
+    bool contended = !(s.owner < 0 && s.readers == 0) && !(recursive && s.owner == gCur);
+    if (contended && gCur > 0 && (gRngYield.next() & 1)) {++gStats.timedLockTimeouts; yieldPoint(); return 110 /*ETIMEDOUT*/;}
+  }
+  return mutexLock(m, false, recursive);
+}
 int mutexUnlock(uintptr_t m)
 {
   SyncObj & s = syncObj(m);
@@ -554,6 +568,18 @@ int __wrap_pthread_mutex_trylock(pthread_mutex_t * m)
   if (!gActive || gInRt) {return __real_pthread_mutex_trylock(m);}
   RtGuard guard;
   return mutexLock((uintptr_t)m, true, (m->__data.__kind & 3) == PTHREAD_MUTEX_RECURSIVE_NP);
+}
+int __wrap_pthread_mutex_timedlock(pthread_mutex_t * m, const struct timespec * ts)
+{
+  if (!gActive || gInRt) {return __real_pthread_mutex_timedlock(m, ts);}
+  RtGuard guard;
+  return mutexTimedLock((uintptr_t)m, (m->__data.__kind & 3) == PTHREAD_MUTEX_RECURSIVE_NP);
+}
+int __wrap_pthread_mutex_clocklock(pthread_mutex_t * m, clockid_t clk, const struct timespec * ts)
+{
+  if (!gActive || gInRt) {return __real_pthread_mutex_clocklock(m, clk, ts);}
+  RtGuard guard;
+  return mutexTimedLock((uintptr_t)m, (m->__data.__kind & 3) == PTHREAD_MUTEX_RECURSIVE_NP);
 }
 int __wrap_pthread_mutex_unlock(pthread_mutex_t * m)
 {
